@@ -22,7 +22,7 @@ import vlib
 
 SEGS = ["a", "b", ":x", ":y", "*", ""]
 SEGS_WIDE = ["a", "b", ":x", ":y", "*", "", ":", "**", "a*"]
-SEGS_DEEP = ["a", ":x", "*", ""]
+SEGS_DEEP = ["a", "b", ":x", "*", ""]
 
 
 def hx(s):
@@ -403,10 +403,44 @@ def check_m(ctx, exe, drv, pairs):
             judge_m(ctx, li, lm)
 
 
+def coq_list(b):
+    return "[" + ";".join(str(x) for x in b) + "]"
+
+
+def crosscheck_extraction(ctx, drv, pairs):
+    """thorough tier: the extracted OCaml model and its driver against vm_compute inside Coq on a sample
+    (verdict and number of captures of the matcher)"""
+    lines = ["m %s %s" % (hx(p), hx(q)) for p, q in pairs]
+    out = run_sharded(ctx, drv, lines, "model driver c19 (cross-check)")
+    if out is None:
+        return
+    items = []
+    for (p, q), l in zip(pairs, out):
+        res = l.split(" ")[2]
+        ok = res != "N"
+        n = 0 if not ok or res == "M:-" else len(res[2:].split(","))
+        items.append("(%s, %s, %s, %d%%nat)" % (coq_list(p.encode()), coq_list(q.encode()), "true" if ok else "false", n))
+    v = ("From RB Require Import Base.Prelude Conn.DispatchMsg Conn.Dispatch.\n"
+         "Definition cases : list (list N * list N * bool * nat) := [\n%s].\n"
+         "Definition agree (c : list N * list N * bool * nat) : bool :=\n"
+         "  let '(p, q, ok, n) := c in\n"
+         "  match matches (pattern_new p) q with\n"
+         "  | Ok m => ok && Nat.eqb (length m) n\n"
+         "  | Err => negb ok\n"
+         "  | _ => false\n"
+         "  end.\n"
+         "Eval vm_compute in (forallb agree cases).\n") % ";\n".join(items)
+    res = vlib.coq_eval("c19cases", v)
+    ctx.extra["extraction_crosscheck"] = "%d matcher cases evaluated with vm_compute inside Coq and by the extracted model: %s" % (
+        len(pairs), "agree" if "= true" in res else "DISAGREE")
+    if "= true" not in res:
+        ctx.tie_broken("extracted model / driver disagree with vm_compute inside Coq", res[-1500:])
+
+
 def run(ctx):
     thorough = ctx.tier == "thorough"
     ctx.rule = ("(a) one-entry PathMatcher::get_match on ALL pattern x path pairs built from 1..4 segments of {a,b,:x,:y,*,\"\"} "
-                "(enumerated inside harness and extracted model; thorough adds 1..5 segments of {a,:x,*,\"\"} and 1..3 of a wider "
+                "(enumerated inside harness and extracted model; thorough adds 1..5 segments of {a,b,:x,*,\"\"} and 1..3 of a wider "
                 "alphabet with ':', '**', 'a*'), plus generated long/odd pairs and 2-5-entry matchers built around a query; "
                 "(b) DispatchConn::run over a scripted socket: 0-4 initial routes, 1-8 incoming messages (calls, a few "
                 "method returns without path), handlers returning Some/None/Err and adding routes. Non-trivial: matcher "
@@ -434,7 +468,7 @@ def run(ctx):
     total = enum_compare(ctx, exe, drv, SEGS, 4, "6 segs<=4")
     ctx.extra["exhaustive_matcher_scope"] = "all %d pairs: patterns and paths of 1..4 segments over %s" % (total, SEGS)
     if thorough:
-        enum_compare(ctx, exe, drv, SEGS_DEEP, 5, "4 segs<=5")
+        enum_compare(ctx, exe, drv, SEGS_DEEP, 5, "5 segs<=5")
         enum_compare(ctx, exe, drv, SEGS_WIDE, 3, "9 segs<=3")
     ctx.exhaustive = False
 
@@ -455,6 +489,8 @@ def run(ctx):
             q = gen_pattern(r, ["a", "b", "", "*", ":x"], 8)
         pairs.append((p, q))
     check_m(ctx, exe, drv, pairs)
+    if thorough:
+        crosscheck_extraction(ctx, drv, pairs[:400])
 
     # (a) multi-entry matchers
     r = ctx.sub_rng("mm")
@@ -462,7 +498,7 @@ def run(ctx):
 
     # (b) run
     r = ctx.sub_rng("run")
-    check_run(ctx, exe, drv, c_run + [gen_run(r) for _ in range(6000 if thorough else 600)])
+    check_run(ctx, exe, drv, c_run + [gen_run(r) for _ in range(20000 if thorough else 600)])
 
 
 def replay(ctx, body):
